@@ -11,6 +11,9 @@ func (ip *Interp) lenOf(v Value) *Term {
 	st := ip.st
 	switch v := v.(type) {
 	case Str:
+		if v.SymLen != nil {
+			return v.SymLen
+		}
 		return st.Const(64, uint64(len(v.B)))
 	case Slice:
 		if v.SymLen != nil {
@@ -118,12 +121,27 @@ func (ip *Interp) callBuiltin(fr *frame, fn *ssa.Builtin, args []Value, site ssa
 		return p
 	case "String": // unsafe.String(ptr *byte, len)
 		p := args[0].(Ptr)
-		n := ip.concInt(args[1].(*Term), "unsafe.String len")
+		lenT := args[1].(*Term)
+		if !lenT.IsConst() {
+			// view over a symbolic-length slice: keep the tracked bytes
+			if p.Cell == nil || p.Base == nil {
+				ip.oom("unsafe.String of non-element pointer")
+			}
+			b := make([]*Term, 0, len(p.Base)-p.Idx)
+			for i := p.Idx; i < len(p.Base); i++ {
+				b = append(b, p.Base[i].(*Term))
+			}
+			return Str{B: b, SymLen: lenT}
+		}
+		n := int(lenT.Val)
 		if n == 0 {
 			return Str{}
 		}
 		if p.Cell == nil || p.Base == nil {
 			ip.oom("unsafe.String of non-element pointer")
+		}
+		if p.Idx+n > len(p.Base) {
+			ip.oom("unsafe.String beyond tracked cells")
 		}
 		b := make([]*Term, n)
 		for i := 0; i < n; i++ {
@@ -131,7 +149,7 @@ func (ip *Interp) callBuiltin(fr *frame, fn *ssa.Builtin, args []Value, site ssa
 		}
 		return Str{B: b}
 	case "StringData":
-		s := args[0].(Str)
+		s := ip.concStr(args[0].(Str))
 		if len(s.B) == 0 {
 			return Ptr{}
 		}
@@ -194,6 +212,7 @@ func (ip *Interp) appendOp(s Slice, more Value, et types.Type, site ssa.Instruct
 			add[i] = copyVal(m.Base[m.Off+i])
 		}
 	case Str:
+		m = ip.concStr(m)
 		add = make([]Value, len(m.B))
 		for i, b := range m.B {
 			add[i] = b
@@ -294,6 +313,7 @@ func (ip *Interp) copyOp(dst Slice, src Value, site ssa.Instruction) Value {
 		}
 		get = func(i int) Value { return copyVal(s.Base[s.Off+i]) }
 	case Str:
+		s = ip.concStr(s)
 		srcTracked = len(s.B)
 		srcLenT = st.Const(64, uint64(len(s.B)))
 		get = func(i int) Value { return s.B[i] }
